@@ -148,7 +148,7 @@ theorem C04.cascade (nt : Nat) (sched : List (Nat × Action)) (d p : Nat) :
   | step hc hp _ ih => exact cascade_child_of g h hc hp (ih ht) (hq _)
 
 /-- Non-vacuity: after `demoSched` the root and its child are terminated, nothing is pending,
-three registrations exist (user hook, the child's `wait.Done`, the child in the root) and each
+three registrations exist (user hook, the child's wait-done hook, the child in the root) and each
 has run exactly once with error 3. -/
 theorem C04.hook_exactly_once_nonvacuous :
     let s := run (init 1) demoSched
@@ -187,38 +187,44 @@ def C04.reverse_order_full : Prop :=
     k₁ < k₂ → k₂ < s.nextTok → s.owner k₁ = s.owner k₂ → s.late k₁ = false → s.late k₂ = false →
       0 < runCount s k₁ → 0 < runCount s k₂
 
-/-- Full statement (proved below as `C04.join_after_children`): whenever the wait counter of `p` is 0 (the only situation in
-which `joinReturn` is enabled) and no thread is between the two halves of `p.Fork()`, every child
-of `p` is terminated and all its hooks registered before its termination have run; and
-`wait.Done` never panics. -/
+/-- Full statement (proved below as `C04.join_after_children`), for the code after fix 37f33b8
+(`children` counter + `sync.Cond`): the counter of `p` is never negative, and whenever it is 0 –
+the only situation in which a check of `Join`'s loop condition lets `Join` return – every child of
+`p` is terminated and all its hooks registered before its termination have run exactly once. -/
 def C04.join_after_children_full : Prop :=
   ∀ (nt : Nat) (sched : List (Nat × Action)) (p c : Nat),
     let s := run (init nt) sched
-    s.wgPanic = false ∧
-    (p < s.np → (s.procs p).waitCnt = 0 → c < s.np → (s.procs c).parent = some p →
+    (p < s.np → 0 ≤ (s.procs p).children) ∧
+    (p < s.np → (s.procs p).children = 0 → c < s.np → (s.procs c).parent = some p →
       (s.procs c).terminated = true ∧
       ∀ k, k < s.nextTok → s.owner k = c → s.late k = false → runCount s k = 1)
 
-/-- **Join (partial).** `Join` returns only through the step that is enabled iff the counter is
-0: a thread inside `Join(p)` whose counter is positive does not move. -/
+/-- **Join (partial).** A thread inside `Join(p)` that finds the counter positive does not return:
+it parks in `p.join.Wait()`; and a parked thread does not move by itself (only a Broadcast – see
+`Uniflow.Process.broadcast` – puts it back in front of the loop condition). -/
 theorem C04.join_after_children_partial (s : State) (t p : Nat) :
-    (s.threads t).pc = .joining p → (s.procs p).waitCnt ≠ 0 → step s t .cont = s := by
-  intro hpc hw
-  unfold step
-  split
-  · simp [contStep, hpc, hw]
-  · rfl
+    ((s.threads t).pc = .joining p → t < s.nt → 0 < (s.procs p).children →
+      ((step s t .cont).threads t).pc = .waiting p) ∧
+    ((s.threads t).pc = .waiting p → step s t .cont = s) := by
+  refine ⟨?_, ?_⟩
+  · intro hpc ht hw
+    simp [step, ht, contStep, hpc, hw]
+  · intro hpc
+    unfold step
+    split
+    · simp [contStep, hpc]
+    · rfl
 
 /-! ### full statements (follow-up): order across threads, wait counter, Join -/
 
 /-- all invariants hold in every reachable state -/
 theorem reach_inv (nt : Nat) (sched : List (Nat × Action)) :
     let s := run (init nt) sched
-    Good s ∧ Ord s ∧ JC s ∧ JW s := by
+    Good s ∧ Ord s ∧ JC s ∧ JW s ∧ JP s := by
   have g := good_run (good_init nt) sched
   have o := ord_run (good_init nt) (ord_init nt) sched
   have j := j_run (good_init nt) (ord_init nt) (jc_init nt) (jw_init nt) sched
-  exact ⟨g, o, j.1, j.2⟩
+  exact ⟨g, o, j.1, j.2, jp_run (good_init nt) (ord_init nt) (jc_init nt) (jw_init nt) (jp_init nt) sched⟩
 
 /-- **Reverse order, across all threads.** In every reachable state, for two registrations
 `k₁ < k₂` (registration order = token order) made on the same process before its termination:
@@ -262,21 +268,34 @@ theorem C04.second_exit_gets_empty (nt : Nat) (sched : List (Nat × Action)) (t 
   have hh : (s.procs p).hooks = [] := g.hooksRun p hp ht
   simp [exitFlip, ht, hh, pushFrame]
 
-/-- **Wait-counter accounting.** In every reachable state the counter of `p` equals the number of
-threads between `p.wait.Add(1)` and the registration of the new child, plus the number of children
-of `p` whose `wait.Done` hook has not run. -/
+/-- **Children-counter accounting.** In every reachable state the counter of `p` equals the
+number of threads between `p.children++` and the registration of the new child, plus the number of
+children of `p` whose wait-done hook has not run. (Name kept from the `WaitGroup` version.) -/
 theorem C04.wait_counter_accounting (nt : Nat) (sched : List (Nat × Action)) (p : Nat) :
     let s := run (init nt) sched
-    p < s.np → (s.procs p).waitCnt = pendForks s p + unrunKids s p :=
+    p < s.np → (s.procs p).children = (pendForks s p : Int) + (unrunKids s p : Int) :=
   fun hp => (reach_inv nt sched).2.2.1.acc p hp
 
-/-- **`wait.Done` never panics**: the counter never goes negative, under any schedule. -/
-theorem C04.wait_done_never_panics (nt : Nat) (sched : List (Nat × Action)) :
-    (run (init nt) sched).wgPanic = false :=
-  (reach_inv nt sched).2.2.1.noPanic
+/-- **The counter is never negative.** `children` is a plain Go `int`; a decrement below zero
+would not panic – it never happens, under any schedule: every wait-done hook runs once, after
+the increment that counted its child. -/
+theorem C04.children_never_negative (nt : Nat) (sched : List (Nat × Action)) (p : Nat) :
+    let s := run (init nt) sched
+    p < s.np → 0 ≤ (s.procs p).children := by
+  intro s hp
+  have j : JC s := (reach_inv nt sched).2.2.1
+  have := j.acc p hp
+  omega
+
+/-- The former `wait.Done never panics` (negative `WaitGroup` counter), restated for the code after
+fix 37f33b8 – there is no panic any more, the statement is `children_never_negative`. -/
+theorem C04.wait_done_never_panics (nt : Nat) (sched : List (Nat × Action)) (p : Nat) :
+    let s := run (init nt) sched
+    p < s.np → 0 ≤ (s.procs p).children :=
+  C04.children_never_negative nt sched p
 
 theorem join_of_inv {s : State} (g : Good s) (o : Ord s) (j : JC s) {p c : Nat} (hp : p < s.np)
-    (hw : (s.procs p).waitCnt = 0) (hc : c < s.np) (hpar : (s.procs c).parent = some p) :
+    (hw : (s.procs p).children = 0) (hc : c < s.np) (hpar : (s.procs c).parent = some p) :
     (s.procs c).terminated = true ∧
       ∀ k, k < s.nextTok → s.owner k = c → s.late k = false → runCount s k = 1 := by
   have hacc := j.acc p hp
@@ -303,41 +322,110 @@ theorem join_of_inv {s : State} (g : Good s) (o : Ord s) (j : JC s) {p c : Nat} 
       · exact o.logOrd (s.procs c).wtok k (by omega) hk (by rw [hwt.2.1, ho]) hwt.2.2 hl hlogged
     simp only [runCount] at *; omega
 
-/-- **Join waits, `wait.Done` never panics.** In every reachable state: the `WaitGroup` counter
-never went negative, and whenever the counter of `p` is 0 – the only situation in which the
-`joinReturn` step is enabled – every child of `p` is terminated and every hook registered on it
-before its termination has run exactly once. (Children whose `Fork` is between its two halves
-keep the counter positive, see `wait_counter_accounting`.) -/
+/-- **Join waits; the counter is never negative.** In every reachable state: the counter of `p`
+is ≥ 0, and whenever it is 0 – the only situation in which a check of `Join`'s loop condition
+lets it return – every child of `p` is terminated and every hook registered on it before its
+termination has run exactly once. (Children whose `Fork` is between its two halves keep the
+counter positive, see `wait_counter_accounting`.) -/
 theorem C04.join_after_children : C04.join_after_children_full := by
   intro nt sched p c s
-  obtain ⟨g, o, j, _⟩ := reach_inv nt sched
-  exact ⟨j.noPanic, fun hp hw hc hpar => join_of_inv g o j hp hw hc hpar⟩
+  have g : Good s := (reach_inv nt sched).1
+  have o : Ord s := (reach_inv nt sched).2.1
+  have j : JC s := (reach_inv nt sched).2.2.1
+  exact ⟨fun hp => (by have := j.acc p hp; omega), fun hp hw hc hpar => join_of_inv g o j hp hw hc hpar⟩
 
-/-- The same, phrased on the step: if a thread inside `Join(p)` returns by its next step, then at
-that moment every process forked from `p` so far – in particular every child forked before the
-`Join` began – is terminated and all its hooks registered before termination have run. No
-hypothesis on the usage of `Join` is needed in the model, whose `WaitGroup` is a plain counter;
-the documented-usage hypothesis concerns the real `sync.WaitGroup`'s misuse panics only. -/
+/-- **Join returns exactly when the counter is 0.** A thread in front of `Join`'s loop condition
+returns by its next step iff the counter is 0, and parks in `Wait` iff it is positive. -/
+theorem C04.join_returns_iff_zero (nt : Nat) (sched : List (Nat × Action)) (t p : Nat) :
+    let s := run (init nt) sched
+    t < s.nt → p < s.np → (s.threads t).pc = .joining p →
+      (((step s t .cont).threads t).pc = .idle ↔ (s.procs p).children = 0) ∧
+      (((step s t .cont).threads t).pc = .waiting p ↔ 0 < (s.procs p).children) := by
+  intro s ht hp hpc
+  have j : JC s := (reach_inv nt sched).2.2.1
+  have hnn : 0 ≤ (s.procs p).children := by have := j.acc p hp; omega
+  by_cases hw : 0 < (s.procs p).children
+  · have h1 : ((step s t .cont).threads t).pc = .waiting p := by simp [step, ht, contStep, hpc, hw]
+    rw [h1]
+    exact ⟨⟨fun x => (by cases x), fun x => (by omega)⟩, ⟨fun _ => hw, fun _ => rfl⟩⟩
+  · have h1 : ((step s t .cont).threads t).pc = .idle := by simp [step, ht, contStep, hpc, hw]
+    rw [h1]
+    exact ⟨⟨fun _ => (by omega), fun _ => rfl⟩, ⟨fun x => (by cases x), fun x => absurd x hw⟩⟩
+
+/-- **No lost wake-up.** A thread parked in `p.join.Wait()` always sees a positive counter: the
+decrement that makes the counter 0 wakes every parked thread in the same critical section. -/
+theorem C04.join_no_lost_wakeup (nt : Nat) (sched : List (Nat × Action)) (t p : Nat) :
+    let s := run (init nt) sched
+    (s.threads t).pc = .waiting p → p < s.np ∧ 0 < (s.procs p).children := by
+  intro s h
+  have j := (reach_inv nt sched).2.2.2.2
+  exact ⟨j.pcLt t p (Or.inr h), j.pos t p h⟩
+
+/-- **Join concurrent with Fork** (what fix 37f33b8 is about; NO hypothesis on how `Join` is
+used). If the check performed by thread `t` lets `Join(p)` return (its last check), then in the
+state of that check
+  * the counter of `p` is 0,
+  * no `Fork` of `p` is between its `children++` and the registration of its child – so every
+    `Fork` whose increment happened before this check has created and registered its child, and
+  * every such child – every process forked from `p` so far – is terminated and all its hooks
+    registered before its termination have run exactly once.
+Forks of `p` whose increment comes after this check are not waited for (see the non-vacuity
+theorem: a child forked after the return is running). -/
+theorem C04.join_concurrent_fork (nt : Nat) (sched : List (Nat × Action)) (t p : Nat) :
+    let s := run (init nt) sched
+    t < s.nt → p < s.np → (s.threads t).pc = .joining p → ((step s t .cont).threads t).pc = .idle →
+      (s.procs p).children = 0 ∧
+      (∀ t', t' < s.nt → (s.threads t').pc ≠ .forkReg p) ∧
+      ∀ c, c < s.np → (s.procs c).parent = some p →
+        (s.procs c).terminated = true ∧
+        ∀ k, k < s.nextTok → s.owner k = c → s.late k = false → runCount s k = 1 := by
+  intro s ht hp hpc hret
+  have g : Good s := (reach_inv nt sched).1
+  have o : Ord s := (reach_inv nt sched).2.1
+  have j : JC s := (reach_inv nt sched).2.2.1
+  have hw : (s.procs p).children = 0 := ((C04.join_returns_iff_zero nt sched t p ht hp hpc).1).mp hret
+  refine ⟨hw, ?_, fun c hc hpar => join_of_inv g o j hp hw hc hpar⟩
+  intro t' ht' hfork
+  have hacc := j.acc p hp
+  have hge := sumTo_ge (f := fun t => if (s.threads t).pc = Pc.forkReg p then 1 else 0) ht'
+  simp only [hfork, if_true] at hge
+  simp only [pendForks] at hacc
+  omega
+
+/-- The same for one child (kept from the previous version): if a thread inside `Join(p)` returns
+by its next step, every process forked from `p` so far – in particular every child forked before
+the `Join` began – is terminated and all its hooks registered before termination have run. -/
 theorem C04.join_return_after_children (nt : Nat) (sched : List (Nat × Action)) (t p c : Nat) :
     let s := run (init nt) sched
     t < s.nt → p < s.np → (s.threads t).pc = .joining p → ((step s t .cont).threads t).pc = .idle →
     c < s.np → (s.procs c).parent = some p →
       (s.procs c).terminated = true ∧
-        ∀ k, k < s.nextTok → s.owner k = c → s.late k = false → runCount s k = 1 := by
-  intro s ht hp hpc hret hc hpar
-  obtain ⟨g, o, j, _⟩ := reach_inv nt sched
-  have hw : (s.procs p).waitCnt = 0 := by
-    by_cases e : (s.procs p).waitCnt = 0
-    · exact e
-    · have := C04.join_after_children_partial s t p hpc e
-      rw [this, hpc] at hret; cases hret
-  exact join_of_inv g o j hp hw hc hpar
+        ∀ k, k < s.nextTok → s.owner k = c → s.late k = false → runCount s k = 1 :=
+  fun ht hp hpc hret hc hpar => (C04.join_concurrent_fork nt sched t p ht hp hpc hret).2.2 c hc hpar
 
 /-- Non-vacuity of the Join theorems: after `demoSched` the root's counter is 0 with one child. -/
 theorem C04.join_after_children_nonvacuous :
     let s := run (init 1) demoSched
-    (s.procs 0).waitCnt = 0 ∧ (s.procs 1).parent = some 0 ∧ s.owner 1 = 1 ∧ s.late 1 = false ∧
+    (s.procs 0).children = 0 ∧ (s.procs 1).parent = some 0 ∧ s.owner 1 = 1 ∧ s.late 1 = false ∧
     unrunKids s 0 = 0 ∧ pendForks s 0 = 0 := by
+  decide
+
+/-- Non-vacuity of `join_concurrent_fork`: thread 1 calls `Join(p0)` while thread 0 is between the
+two halves of `p0.Fork()` – the child does not exist yet, but the counter is already 1, so the
+Join parks; the Fork completes (child p1), p1 exits, its wait-done hook takes the counter to 0 and
+wakes thread 1, whose next check returns with p1 terminated. A child forked afterwards (p2) is
+running: the Join did not wait for it. -/
+theorem C04.join_concurrent_fork_nonvacuous :
+    let pre : List (Nat × Action) := [(0, .start .new), (0, .start (.fork 0)), (1, .start (.join 0)), (1, .cont)]
+    let mid : List (Nat × Action) := pre ++ [(0, .cont), (2, .start (.exit 1 5)), (2, .cont), (2, .cont)]
+    let s₁ := run (init 3) pre
+    let s₂ := run (init 3) mid
+    let s₃ := run (init 3) (mid ++ [(1, .cont), (0, .start (.fork 0)), (0, .cont)])
+    (s₁.np = 1 ∧ (s₁.procs 0).children = 1 ∧ (s₁.threads 0).pc = .forkReg 0 ∧ (s₁.threads 1).pc = .waiting 0) ∧
+    ((s₂.procs 0).children = 0 ∧ (s₂.threads 1).pc = .joining 0 ∧ (s₂.procs 1).terminated = true ∧
+      ((step s₂ 1 .cont).threads 1).pc = .idle) ∧
+    ((s₃.threads 1).pc = .idle ∧ (s₃.procs 2).parent = some 0 ∧ (s₃.procs 2).terminated = false ∧
+      (s₃.procs 0).children = 1) := by
   decide
 
 /-- Non-vacuity of `reverse_order`: two user hooks registered in the order 0 then 1 on one
